@@ -648,6 +648,7 @@ func main() {
 	runFamily("Data Matrix (writer draws no quiet zone)", dmSpecs(), false)
 	runFamily("1-D, nine symbologies, heights {20,60}, writer default margin (UPC-E 14)", oneDSpecs([]int{20, 60}, -1), false)
 	runCropped()
+	runReaderHistories()
 	reportTable()
 	chk.Finish()
 }
